@@ -2,7 +2,7 @@
 solutions with rational parameters against the Coq model; manufactured solutions as a direct
 oracle (the residual must vanish where the network satisfies the equation)."""
 import math, random
-from common import jx, cq, cnat, cbool, clist, write_cases, default_matches_known
+from common import relax, jx, cq, cnat, cbool, clist, write_cases, default_matches_known
 from poly import mk, prand, pdiff, peval, pmul, padd
 from lossbuild import poly_jax
 matches_known = default_matches_known
@@ -58,6 +58,7 @@ def gen_case(rng, eq):
 
 
 def evaluate(c):
+    relax(20)
     jax, jnp, np, eqx, jinns = jx()
     from jinns.parameters import Params, ParamsDict
     eq, pt, nus = c["eq"], c["pt"], c["nus"]
@@ -122,6 +123,53 @@ def case_term(cid, c, obs):
     polys = clist(c["polys"], lambda p: clist(sorted(p.items()), lambda m: f"({cq(m[1])}, {clist(m[0], cnat)})"))
     return (f"mkcase {cnat(cid)} {cnat(EQS.index(c['eq']))} {cnat(c['d'])} {cq(c['tmax'])} {polys} {clist(c['pt'], cq)} "
             f"{clist(c['nus'], cq)} {clist(obs, cq)}")
+
+
+def general_fpe(rng, n):
+    """the Fokker-Planck residual with a drift and a FULL (non-diagonal, point-dependent) diffusion matrix, on polynomial
+    candidates, against polynomial algebra (the built-in Ornstein-Uhlenbeck loss has a diagonal diffusion, so its mixed
+    second-order terms vanish; a subclass with its own drift / diffusion uses them)"""
+    jax, jnp, np, eqx, jinns = jx()
+    from jinns.parameters import Params
+    from poly import pmul, padd, pdiff, peval
+    fails = []
+    lin = lambda c0, c1, c2: {k: v for k, v in {(0, 0, 0): c0, (0, 1, 0): c1, (0, 0, 1): c2}.items() if v != 0}     # variables (t, x0, x1)
+    for _ in range(n):
+        relax(5)
+        tmax = rng.choice(TMAX)
+        A = [[dy(rng), dy(rng)], [dy(rng), dy(rng)]]; cvec = [dy(rng), dy(rng)]
+        d01 = [dy(rng, 1, 3), dy(rng), dy(rng)]
+        Dc = [[[dy(rng, 1, 3), dy(rng), dy(rng)], d01], [d01, [dy(rng, 1, 3), dy(rng), dy(rng)]]]      # symmetric, entries d + e x0 + f x1
+        up = prand(rng, 3, 3, 4) or {(0, 1, 1): 1}
+        pt = [dy(rng), dy(rng), dy(rng)]
+
+        class Gen(jinns.loss.FPENonStatioLoss2D):
+            def drift(self, t, x, eq_params):
+                return jnp.array(A) @ x + jnp.array(cvec)
+
+            def diffusion(self, t, x, eq_params, i=None, j=None):
+                M = jnp.array([[Dc[a][b][0] + Dc[a][b][1] * x[0] + Dc[a][b][2] * x[1] for b in range(2)] for a in range(2)])
+                return M if i is None else M[i, j]
+        u = mk([up], "nonstatio_PDE")
+        P = Params(nn_params=u.init_params(), eq_params={"junk": jnp.array(1.0)})
+        try:
+            got = float(np.asarray(Gen(Tmax=tmax).evaluate(jnp.array(pt[:1]), jnp.array(pt[1:]), u, P)).ravel()[0])
+        except Exception as ex:
+            fails.append({"detail": f"general Fokker-Planck residual raised {type(ex).__name__}: {str(ex)[:200]}", "case": dict(what="general_fpe")})
+            continue
+        mu = [lin(cvec[i], A[i][0], A[i][1]) for i in range(2)]
+        Dp = [[lin(*Dc[a][b]) for b in range(2)] for a in range(2)]
+        order1 = {}
+        for i in range(2):
+            order1 = padd(order1, pdiff(pmul(mu[i], up), 1 + i))
+        order2 = {}
+        for i in range(2):
+            for j in range(2):
+                order2 = padd(order2, pdiff(pdiff(pmul(Dp[i][j], up), 1 + i), 1 + j))
+        want = -peval(pdiff(up, 0), pt) + tmax * (-peval(order1, pt) + peval(order2, pt))
+        if abs(got - want) > 1e-9 * (1 + abs(want)):
+            fails.append({"detail": f"Fokker-Planck residual with drift A x + c and a full diffusion matrix: {got}, polynomial algebra gives {want} (Tmax={tmax})", "case": dict(what="general_fpe")})
+    return fails
 
 
 def manufactured(rng, n):
@@ -192,6 +240,7 @@ def generate(tier, seed, casedir, variant):
             cid += 1
     nm = 10 if tier == "quick" else 60
     viol += manufactured(rng, nm)
+    viol += general_fpe(rng, 8 if tier == "quick" else 40)
     # the separable-network branches of the built-in equations against the pointwise branch on the same function
     import c11
     nsep = 3 if tier == "quick" else 9
@@ -202,12 +251,14 @@ def generate(tier, seed, casedir, variant):
     dist["separable_vs_pointwise_rounds"] = nsep
     write_cases(casedir, "C02", "R_C02", variant, cases, chunk=120)
     return dict(meta=meta, oracle_violations=viol, evaluations=len(cases) + nm, distinct_nontrivial=len(nontrivial), samples=samples, distribution=dist,
-                rule="per equation: random integer-coefficient polynomial candidate solutions (positive ones for Lotka-Volterra), dyadic points and parameters, Tmax in {1, 2, 1/2, 10}, scalar and vector drift parameters, shared and per-network parameter layouts, 1..4 Lotka-Volterra populations under arbitrary key names listed in any order; non-trivial = non-zero residual; plus exact heat-equation solutions on which the Fisher-KPP residual must vanish (oracle only); plus the separable-network branch of every built-in equation against its pointwise branch on the same function, 1 / 2 / 3 points per axis (oracle only)",
+                rule="per equation: random integer-coefficient polynomial candidate solutions (positive ones for Lotka-Volterra), dyadic points and parameters, Tmax in {1, 2, 1/2, 10}, scalar and vector drift parameters, shared and per-network parameter layouts, 1..4 Lotka-Volterra populations under arbitrary key names listed in any order; non-trivial = non-zero residual; plus exact heat-equation solutions on which the Fisher-KPP residual must vanish (oracle only); plus the Fokker-Planck residual of a subclass with linear drift and a full point-dependent diffusion matrix against polynomial algebra (oracle only); plus the separable-network branch of every built-in equation against its pointwise branch on the same function, 1 / 2 / 3 points per axis (oracle only)",
                 oracle_checks=nm)
 
 
 def replay(rep, casedir, variant):
     c = rep["case"]
+    if c.get("what") == "general_fpe":
+        return dict(meta={}, oracle_violations=general_fpe(random.Random(rep.get("seed", 0)), 40), evaluations=40, distinct_nontrivial=40, rule="replay", samples=[c])
     if c.get("what") == "manufactured":
         return dict(meta={}, oracle_violations=manufactured(random.Random(0), 40), evaluations=40, distinct_nontrivial=40, rule="replay", samples=[c])
     if c.get("what") in ("terms", "impl_vs_impl", "residual", "vector operator"):       # oracle-only comparisons are regenerated from the seed of the run
